@@ -1,7 +1,1072 @@
-//! Directed families and pure oracle sweeps (filled in per property).
+//! Directed script families (one or more per property) and pure oracle sweeps.
 use crate::Sink;
-use crate::gn::Rng;
+use crate::exec::hex;
+use crate::gn::{self, Rng, STATIC_TEXTS};
+use lean_string::{LeanString, ToLeanString};
 
-pub fn run_directed(_name: &str, _rng: &mut Rng, _n: usize, _sink: &mut Sink) -> bool {
-    false
+fn tl(rng: &mut Rng, base: usize, spread: usize) -> String {
+    let n = base + rng.below(spread);
+    gn::text_of_len(rng, n)
+}
+
+fn h(s: &str) -> String {
+    hex(s.as_bytes())
+}
+
+const T20: &str = "0123456789abcdeéXYZ"; // 20 bytes
+
+/// (name, setup lines) — the target is always handle 0; siblings are 1, 2
+fn states(rng: &mut Rng, text: &str) -> Vec<(&'static str, Vec<String>)> {
+    let t = h(text);
+    let mut v = vec![
+        ("unique", vec![format!("from 0 {t}")]),
+        ("shared2", vec![format!("from 0 {t}"), "clone 1 0".into()]),
+        ("shared3", vec![format!("from 0 {t}"), "clone 1 0".into(), "clone 2 1".into()]),
+        ("over", vec![format!("with_capacity 0 {}", text.len() + 1 + rng.below(40)), format!("push_str 0 {t}")]),
+    ];
+    v.push(("was-shared", vec![format!("from 0 {t}"), "clone 1 0".into(), "drop 1".into()]));
+    v
+}
+
+fn mutators(rng: &mut Rng, text: &[u8], target: usize) -> Vec<String> {
+    let i1 = gn::index(rng, text);
+    let i2 = gn::index(rng, text);
+    let i3 = gn::index(rng, text);
+    let i4 = gn::index(rng, text);
+    vec![
+        format!("push {target} {}", h(gn::rand_char(rng))),
+        format!("push_str {target} {}", h(&gn::short_text(rng))),
+        format!("pop {target}"),
+        format!("remove {target} {i1}"),
+        format!("insert {target} {i2} {}", h(gn::rand_char(rng))),
+        format!("insert_str {target} {i3} {}", h(&gn::short_text(rng))),
+        format!("truncate {target} {i4}"),
+        format!("clear {target}"),
+        format!("retain {target} TFTTFTFFTTTFTFTTFT"),
+        format!("reserve {target} {}", rng.below(40)),
+        format!("shrink_to_fit {target}"),
+        format!("shrink_to {target} {}", rng.below(40)),
+        format!("extend_chars {target} {} {}", rng.below(8), gn::items_chars(rng, false)),
+        format!("extend_strs {target} {}", gn::items_strs(rng, false, false)),
+        format!("add_assign {target} {}", h(&gn::short_text(rng))),
+        format!("write {target} {}", gn::items_strs(rng, false, false)),
+    ]
+}
+
+/// every 16-byte valid text shape: all 192 legal final bytes
+fn full_inline_texts() -> Vec<Vec<u8>> {
+    let mut v = vec![];
+    for b in 0u8..0x80 {
+        let mut t = b"0123456789abcde".to_vec();
+        t.push(b);
+        v.push(t);
+    }
+    for b in 0x80u8..=0xBF {
+        // 2-byte char ending in b, 3-byte and 4-byte chars ending in b
+        let mut t = b"0123456789abcd".to_vec();
+        t.extend_from_slice(&[0xC3, b]);
+        v.push(t);
+        let mut t = b"0123456789abc".to_vec();
+        t.extend_from_slice(&[0xE2, 0x82, b]);
+        v.push(t);
+        let mut t = b"0123456789ab".to_vec();
+        t.extend_from_slice(&[0xF0, 0x9F, 0x98, b]);
+        v.push(t);
+    }
+    v
+}
+
+pub fn run_directed(name: &str, rng: &mut Rng, n: usize, sink: &mut Sink) -> bool {
+    match name {
+        "tour" => tour(rng, n, sink),
+        "ladder" => ladder(rng, n, sink),
+        "faultsweep" => faultsweep(rng, n, sink),
+        "sizes" => sizes(rng, n, sink),
+        "indexgrid" => indexgrid(rng, n, sink),
+        "clones" => clones(rng, n, sink),
+        "inline" | "niche" => inline(rng, n, sink, name == "niche"),
+        "statics" => statics(rng, n, sink),
+        "capacity" => capacity(rng, n, sink),
+        "growth" => growth(rng, n, sink),
+        "shrink" => shrink(rng, n, sink),
+        "callbacks" => callbacks(rng, n, sink),
+        "ints" => ints(rng, n, sink),
+        "ints_exhaustive32" => ints_exhaustive32(sink),
+        "display" => display(rng, n, sink),
+        "floats" => floats(rng, n, sink),
+        "floats_f32_all" => floats_f32_all(sink),
+        "chars" => chars(sink),
+        "decode" => decode(rng, n, sink, true),
+        "decode_oracle" => decode(rng, n, sink, false),
+        "traits" => crate::traitsuite::run(rng, n, sink),
+        "serde" => crate::traitsuite::serde(rng, n, sink),
+        "threads" => crate::threads::run(rng, n, sink),
+        _ => return false,
+    }
+    true
+}
+
+// ------------------------------------------------------------------------------------------ C01
+fn tour(rng: &mut Rng, n: usize, sink: &mut Sink) {
+    for k in 0..n {
+        sink.line("reset");
+        // inline -> heap -> shared -> truncated while shared -> unique again -> static -> inline
+        let start = tl(rng, 9, 8);
+        sink.line(&format!("from 0 {}", h(&start)));
+        let mut step = |sink: &mut Sink, rng: &mut Rng, target: usize| {
+            if let Some(o) = sink.ex.observe(target) {
+                let ms = mutators(rng, &o.text, target);
+                let m = &ms[(k + rng.below(ms.len())) % ms.len()];
+                sink.line(m);
+            }
+        };
+        step(sink, rng, 0);
+        sink.line(&format!("push_str 0 {}", h(&tl(rng, 10, 30))));
+        step(sink, rng, 0);
+        sink.line("clone 1 0");
+        step(sink, rng, 0);
+        if !sink.ex.live(1) {
+            continue;
+        }
+        sink.line("clone 2 1");
+        let l = sink.ex.observe(1).map(|o| o.text).unwrap_or_default();
+        sink.line(&format!("truncate 1 {}", gn::index(rng, &l)));
+        step(sink, rng, 1);
+        step(sink, rng, 2);
+        sink.line("drop 2");
+        step(sink, rng, 1);
+        step(sink, rng, 1);
+        sink.line(&format!("from_static 3 {}", rng.below(STATIC_TEXTS.len())));
+        step(sink, rng, 3);
+        sink.line("clone 4 3");
+        let l = sink.ex.observe(4).map(|o| o.text).unwrap_or_default();
+        sink.line(&format!("truncate 4 {}", gn::index(rng, &l).min(16)));
+        step(sink, rng, 4);
+        step(sink, rng, 4);
+        step(sink, rng, 3);
+    }
+    // every possible final byte of a full inline string, then each mutator
+    let fulls = full_inline_texts();
+    for (i, t) in fulls.iter().enumerate() {
+        if n < 1000 && i % 4 != (n % 4) {
+            continue;
+        }
+        let ms = mutators(rng, t, 0);
+        for m in ms.iter().take(9) {
+            sink.line("reset");
+            sink.line(&format!("from 0 {}", hex(t)));
+            sink.line(m);
+            sink.line("pop 0");
+            sink.line("push 0 7a");
+        }
+    }
+}
+
+// ------------------------------------------------------------------------------------------ C02
+fn ladder(rng: &mut Rng, n: usize, sink: &mut Sink) {
+    for _ in 0..n {
+        sink.line("reset");
+        let text = if rng.chance(30) { tl(rng, 17, 60) } else { T20.to_string() };
+        let from_static = rng.chance(15);
+        if from_static {
+            sink.line(&format!("from_static 0 {}", rng.below(4)));
+        } else {
+            sink.line(&format!("from 0 {}", h(&text)));
+        }
+        let k = 1 + rng.below(3);
+        for j in 1..=k {
+            sink.line(&format!("{} {j} {}", rng.pick(&["clone", "from_ref", "to_ls"]), rng.below(j)));
+        }
+        // truncate one while shared
+        let a = rng.below(k + 1);
+        let ta = sink.ex.observe(a).map(|o| o.text).unwrap_or_default();
+        sink.line(&format!("truncate {a} {}", gn::index(rng, &ta)));
+        // refused-then-continue on some handle
+        if rng.chance(40) {
+            let b = rng.below(k + 1);
+            match rng.below(3) {
+                0 => sink.line(&format!("try_reserve {b} 18446744073709551515")),
+                1 => sink.line(&format!("extend_chars {b} 18446744073709551000 -")),
+                _ => sink.line("fault 0"),
+            }
+        }
+        // drop another
+        if k >= 2 && rng.chance(60) {
+            let d = (a + 1) % (k + 1);
+            sink.line(&format!("drop {d}"));
+        }
+        // in-place ops on every remaining handle, in random order, twice
+        for _ in 0..2 {
+            for j in 0..=k {
+                let t = (j + a) % (k + 1);
+                if let Some(o) = sink.ex.observe(t) {
+                    let ms = mutators(rng, &o.text, t);
+                    let m = rng.pick(&ms).clone();
+                    sink.line(&m);
+                }
+            }
+        }
+        if rng.chance(50) && sink.ex.live(0) && sink.ex.live(1) {
+            sink.line("clone_from 0 1");
+            sink.line("push 0 61");
+        }
+    }
+}
+
+// ------------------------------------------------------------------------------------------ C05
+fn faultsweep(rng: &mut Rng, n: usize, sink: &mut Sink) {
+    for _ in 0..n {
+        // base script: recorded while it runs
+        sink.line("reset");
+        let mut lines: Vec<String> = vec![];
+        let len = 5 + rng.below(9);
+        for _ in 0..len {
+            let mut l = gn::random_op(rng, &sink.ex);
+            while l.starts_with("fault") {
+                l = gn::random_op(rng, &sink.ex);
+            }
+            sink.line(&l);
+            lines.push(l);
+        }
+        let reqs = crate::shadow::with(|s| s.reqs) as usize;
+        // each request refused in turn
+        for k in 0..reqs.min(14) {
+            sink.line("reset");
+            sink.line(&format!("faultabs {k}"));
+            for l in &lines {
+                sink.line(l);
+            }
+        }
+        // pairs
+        if reqs >= 2 {
+            for _ in 0..reqs.min(4) {
+                let a = rng.below(reqs);
+                let b = rng.below(reqs + 1);
+                sink.line("reset");
+                sink.line(&format!("faultabs {a}"));
+                sink.line(&format!("faultabs {b}"));
+                for l in &lines {
+                    sink.line(l);
+                }
+            }
+        }
+    }
+}
+
+// ------------------------------------------------------------------------------------------ C06
+fn boundary_sizes(len: usize) -> Vec<usize> {
+    let mut v = vec![0usize, 1, 15, 16, 17];
+    for k in 1..64 {
+        let p = 1usize << k;
+        for d in [-2i64, -1, 0, 1, 2] {
+            v.push(p.wrapping_add(d as usize));
+            v.push(p.wrapping_add(d as usize).wrapping_sub(len));
+        }
+    }
+    let m56 = (1usize << 56) - 1;
+    for base in [m56, isize::MAX as usize, usize::MAX] {
+        for d in 0..=2 {
+            v.push(base.wrapping_sub(d));
+            v.push(base.wrapping_add(d));
+            v.push(base.wrapping_sub(len).wrapping_sub(d));
+            v.push(base.wrapping_sub(len).wrapping_add(d));
+        }
+    }
+    v.sort();
+    v.dedup();
+    v
+}
+
+fn sizes(rng: &mut Rng, n: usize, sink: &mut Sink) {
+    let pres = gn::prestates();
+    for (pi, (_name, pre)) in pres.iter().enumerate() {
+        let len = 20;
+        let bs = boundary_sizes(len);
+        for (si, &s) in bs.iter().enumerate() {
+            // quick tier: a third of the sizes per pre-state (rotating), thorough: all
+            if n < 2 && (si + pi) % 3 != 0 {
+                continue;
+            }
+            let ops = [
+                format!("try_reserve 0 {s}"),
+                format!("reserve 0 {s}"),
+                format!("try_shrink_to 0 {s}"),
+                format!("extend_chars 0 {s} 61,c3a9"),
+                format!("try_with_capacity 5 {s}"),
+                format!("with_capacity 5 {s}"),
+                format!("collect_chars 5 {s} 61,62"),
+            ];
+            let op = &ops[(si + pi + rng.below(2)) % ops.len()];
+            sink.line("reset");
+            sink.lines(pre);
+            sink.line(op);
+            // the string (and its siblings) stay fully usable
+            sink.line("push 0 7a");
+            sink.line("remove 0 0");
+            if sink.ex.live(1) {
+                sink.line("push 1 79");
+            }
+        }
+    }
+}
+
+// ------------------------------------------------------------------------------------------ C07
+fn indexgrid(rng: &mut Rng, n: usize, sink: &mut Sink) {
+    let mut texts: Vec<String> = vec![
+        "".into(), "a".into(), "é".into(), "€".into(), "𝄞".into(), "aé€𝄞".into(), "𝄞€éa".into(),
+        "0123456789abcde".into(), "0123456789abcdef".into(), "0123456789abcdé".into(), "0123456789abc€".into(),
+        "0123456789ab𝄞".into(), "0123456789abcdefg".into(), T20.into(), "ééééééééé".into(), "€€€€€€".into(), "𝄞𝄞𝄞𝄞𝄞".into(),
+    ];
+    for _ in 0..(8 * n) {
+        texts.push(tl(rng, 1, 40));
+    }
+    for (ti, text) in texts.iter().enumerate() {
+        let mut sts = states(rng, text);
+        sts.push(("static", vec![]));
+        for (sname, setup) in &sts {
+            for i in 0..=text.len() + 2 {
+                let ops = [
+                    format!("insert 0 {i} {}", h(gn::rand_char(rng))),
+                    format!("try_insert_str 0 {i} {}", h(&gn::short_text(rng))),
+                    format!("remove 0 {i}"),
+                    format!("try_remove 0 {i}"),
+                    format!("truncate 0 {i}"),
+                    format!("try_truncate 0 {i}"),
+                    format!("insert_str 0 {i} -"),
+                ];
+                for (oi, op) in ops.iter().enumerate() {
+                    if n < 2 && (oi + i + ti) % 2 != 0 {
+                        continue;
+                    }
+                    sink.line("reset");
+                    if *sname == "static" {
+                        // a static text of the same shape: use the fixed statics with an index grid
+                        let sid = ti % STATIC_TEXTS.len();
+                        sink.line(&format!("from_static 0 {sid}"));
+                        sink.line("clone 1 0");
+                    } else {
+                        sink.lines(setup);
+                    }
+                    sink.line(op);
+                }
+            }
+        }
+    }
+}
+
+// ------------------------------------------------------------------------------------------ C08
+fn clones(rng: &mut Rng, n: usize, sink: &mut Sink) {
+    let lens: Vec<usize> = if n >= 1000 { vec![0, 1, 15, 16, 17, 18, 100, 1000, 5000, 40000, 300000] } else { vec![0, 1, 15, 16, 17, 18, 100, 1000, 5000, 20000] };
+    for it in 0..n {
+        sink.line("reset");
+        let l = lens[it % lens.len()];
+        sink.line("limit 8388608");
+        match it % 5 {
+            0 => sink.line(&format!("from_static 0 {}", rng.below(STATIC_TEXTS.len()))),
+            1 => {
+                sink.line(&format!("with_capacity 0 {}", l + rng.below(50)));
+                sink.line(&format!("push_str 0 {}", h(&gn::text_of_len(rng, l))));
+            }
+            _ => sink.line(&format!("from 0 {}", h(&gn::text_of_len(rng, l)))),
+        }
+        // a handle whose length differs from the buffer's other users
+        sink.line("clone 1 0");
+        let t = sink.ex.observe(1).map(|o| o.text).unwrap_or_default();
+        sink.line(&format!("truncate 1 {}", gn::index(rng, &t)));
+        for j in 2..6 {
+            let src = rng.below(j);
+            sink.line(&format!("{} {j} {src}", rng.pick(&["clone", "from_ref", "to_ls"])));
+        }
+        sink.line("clone_from 2 1");
+        sink.line("clone_from 3 0");
+        // dropping either leaves the other intact
+        sink.line(&format!("drop {}", rng.below(6)));
+        sink.line(&format!("drop {}", rng.below(6)));
+        for j in 0..6 {
+            if sink.ex.live(j) && rng.chance(40) {
+                sink.line(&format!("push {j} 61"));
+            }
+        }
+    }
+}
+
+// ------------------------------------------------------------------------------------------ C09 / C20
+fn inline(rng: &mut Rng, n: usize, sink: &mut Sink, niche: bool) {
+    let routes = ["from", "try_from", "from_string", "from_box", "from_cow", "from_ref_string"];
+    // all lengths 0..=17 x final bytes x construction routes
+    let mut texts: Vec<Vec<u8>> = full_inline_texts();
+    for l in 0..=17 {
+        for _ in 0..(3 * n.max(1)) {
+            texts.push(gn::text_of_len(rng, l).into_bytes());
+        }
+    }
+    for (i, t) in texts.iter().enumerate() {
+        sink.line("reset");
+        let r = routes[i % routes.len()];
+        sink.line(&format!("{r} 0 {}", hex(t)));
+        sink.line("clone 1 0");
+        // edits that stay within 16 bytes
+        let edits = [
+            "pop 0".to_string(),
+            "push 0 61".into(),
+            "truncate 0 3".into(),
+            "remove 0 0".into(),
+            "insert 0 0 62".into(),
+            "retain 0 TFTFTFTFTFTFTFTF".into(),
+            "clear 0".into(),
+            format!("insert_str 0 1 {}", h("é")),
+            "reserve 0 0".into(),
+            "shrink_to_fit 0".into(),
+            "push_str 0 -".into(),
+        ];
+        for k in 0..3 {
+            sink.line(&edits[(i + k * 5 + rng.below(edits.len())) % edits.len()]);
+        }
+        if niche {
+            // C20: Some(s) is never mistaken for None
+            let cur: Option<LeanString> = sink.ex.pool.first().cloned().flatten();
+            if let Some(s) = cur {
+                let o: Option<LeanString> = Some(s.clone());
+                let oo: Option<Option<LeanString>> = Some(o.clone());
+                sink.oracle.evaluations += 1;
+                if o.is_none() || oo.is_none() || oo.as_ref().unwrap().is_none() || o.as_ref().map(|x| x.as_bytes()) != Some(s.as_bytes()) {
+                    sink.fail(&["C20"], format!("Some(s) mistaken for None (or altered) for s = {}", hex(s.as_bytes())));
+                }
+                let mut slot = o;
+                let taken = slot.take();
+                if taken.is_none() || slot.is_some() {
+                    sink.fail(&["C20"], format!("Option::take misbehaves for s = {}", hex(s.as_bytes())));
+                }
+            }
+        }
+    }
+    // chars, bools, with_capacity <= 16, static <= 16
+    for c in ["a", "é", "€", "𝄞"] {
+        sink.line("reset");
+        sink.line(&format!("from_char 0 {}", h(c)));
+        sink.line("from_bool 1 1");
+        sink.line("from_bool 2 0");
+        sink.line(&format!("with_capacity 3 {}", rng.below(17)));
+        sink.line("from_static 4 4");
+        sink.line("from_static 5 5");
+    }
+    if niche {
+        sink.oracle.distinct_nontrivial = sink.oracle.evaluations;
+        sink.oracle.samples.push("Some(s).is_some(), Some(Some(s)), take() for every 16th byte of a full inline string, heap and static strings".into());
+        if size_of::<LeanString>() != 16 || size_of::<Option<LeanString>>() != 16 || align_of::<LeanString>() != 8 {
+            sink.fail(&["C20"], "LeanString / Option<LeanString> are not two machine words".into());
+        }
+        for l in [17usize, 18, 100, 255, 256, 257, 65535, 65536, 70000] {
+            let s = LeanString::from(gn::text_of_len(rng, l).as_str());
+            let st = LeanString::from_static_str(STATIC_TEXTS[l % 4]);
+            for v in [s, st] {
+                let o = Some(v.clone());
+                sink.oracle.evaluations += 1;
+                if o.is_none() || o.as_ref().unwrap().as_bytes() != v.as_bytes() {
+                    sink.fail(&["C20"], format!("Some(s) mistaken for None for a string of length {}", v.len()));
+                }
+            }
+        }
+    }
+}
+
+// ------------------------------------------------------------------------------------------ C10
+fn statics(rng: &mut Rng, n: usize, sink: &mut Sink) {
+    for it in 0..n {
+        sink.line("reset");
+        let sid = it % STATIC_TEXTS.len();
+        sink.line(&format!("from_static 0 {sid}"));
+        sink.line("clone 1 0");
+        sink.line("from_ref 2 0");
+        let t = sink.ex.observe(0).map(|o| o.text).unwrap_or_default();
+        match it % 4 {
+            0 => {
+                sink.line("pop 0");
+                sink.line("pop 0");
+            }
+            1 => sink.line(&format!("truncate 0 {}", gn::index(rng, &t))),
+            2 => sink.line("clear 0"),
+            _ => {
+                // truncate below the inline limit, then grow
+                let mut i = 7.min(t.len());
+                while i > 0 && i < t.len() && (t[i] & 0xC0) == 0x80 {
+                    i -= 1;
+                }
+                sink.line(&format!("truncate 0 {i}"));
+            }
+        }
+        sink.line("clone 3 0");
+        // the first write on each handle
+        for target in [0usize, 1, 2, 3] {
+            if let Some(o) = sink.ex.observe(target) {
+                let ms = mutators(rng, &o.text, target);
+                sink.line(&ms[(it / 4 + target * 3) % ms.len()].clone());
+            }
+        }
+        // two clones diverging
+        sink.line("push 1 61");
+        sink.line("push 2 62");
+        sink.line("insert_str 0 0 -");
+    }
+}
+
+// ------------------------------------------------------------------------------------------ C11
+fn capacity(rng: &mut Rng, n: usize, sink: &mut Sink) {
+    for it in 0..n {
+        sink.line("reset");
+        let cap = *rng.pick(&[0usize, 1, 15, 16, 17, 18, 20, 32, 33, 64, 100, 1000]);
+        match it % 4 {
+            0 => sink.line(&format!("with_capacity 0 {cap}")),
+            1 => {
+                sink.line(&format!("from 0 {}", h(&gn::rand_text(rng))));
+                sink.line(&format!("reserve 0 {cap}"));
+            }
+            2 => {
+                sink.line(&format!("from_static 0 {}", rng.below(STATIC_TEXTS.len())));
+                sink.line(&format!("reserve 0 {cap}"));
+            }
+            _ => {
+                sink.line(&format!("from 0 {}", h(&gn::rand_text(rng))));
+                sink.line("clone 1 0");
+                sink.line(&format!("try_reserve 0 {cap}"));
+            }
+        }
+        // fill exactly up to the reported capacity, one step beyond, with every appender
+        for _ in 0..6 {
+            if let Some(o) = sink.ex.observe(0) {
+                let room = o.cap - o.len;
+                let want = match rng.below(4) {
+                    0 => room,
+                    1 => room.saturating_sub(1),
+                    2 => 1,
+                    _ => room + 1,
+                };
+                let t = gn::text_of_len(rng, want.min(2000));
+                match rng.below(3) {
+                    0 => sink.line(&format!("push_str 0 {}", h(&t))),
+                    1 => sink.line(&format!("insert_str 0 {} {}", gn::index(rng, &o.text), h(&t))),
+                    _ => sink.line(&format!("push 0 {}", h(gn::rand_char(rng)))),
+                }
+            }
+        }
+    }
+}
+
+// ------------------------------------------------------------------------------------------ C12
+fn growth(rng: &mut Rng, n: usize, sink: &mut Sink) {
+    // push-one-char loops; the number of allocator requests must be logarithmic
+    for (ci, c) in ["a", "é", "€", "𝄞"].iter().enumerate() {
+        let count = if n >= 4 { 30000 } else { 2500 };
+        sink.line("reset");
+        sink.line("limit 8388608");
+        match ci {
+            0 => sink.line("new 0"),
+            1 => sink.line(&format!("from 0 {}", h(T20))),
+            2 => sink.line("from_static 0 2"),
+            _ => {
+                sink.line(&format!("from 0 {}", h(T20)));
+                sink.line("clone 1 0");
+            }
+        }
+        let start_len = sink.ex.observe(0).map(|o| o.len).unwrap_or(0);
+        let before = crate::shadow::with(|s| s.reqs);
+        for _ in 0..count {
+            sink.line(&format!("push 0 {}", h(c)));
+        }
+        let reqs = crate::shadow::with(|s| s.reqs) - before;
+        let final_len = (start_len + count * c.len()) as f64;
+        let bound = 3.0 + (final_len / (start_len.max(16) as f64)).ln() / 1.5f64.ln();
+        sink.oracle.evaluations += 1;
+        sink.oracle.detail.push((format!("push-loop {count} x {}-byte char: requests", c.len()), reqs));
+        if reqs as f64 > bound {
+            sink.fail(&["C12"], format!("{count} pushes of a {}-byte char issued {reqs} allocator requests (bound {bound:.1})", c.len()));
+        }
+    }
+    sink.oracle.distinct_nontrivial = sink.oracle.evaluations;
+    sink.oracle.samples.push("push-one-char loops from empty / heap / static / shared starts".into());
+    // every growth route at many lengths
+    for _ in 0..(300 * n.max(1)) {
+        sink.line("reset");
+        let l = *rng.pick(&[0usize, 5, 15, 16, 17, 20, 31, 33, 64, 100, 333, 1000]);
+        let add = *rng.pick(&[0usize, 1, 2, 8, 16, 17, 50, 51, 500, 2000]);
+        match rng.below(4) {
+            0 => sink.line(&format!("from 0 {}", h(&gn::text_of_len(rng, l)))),
+            1 => sink.line(&format!("from_static 0 {}", rng.below(STATIC_TEXTS.len()))),
+            2 => {
+                sink.line(&format!("from 0 {}", h(&gn::text_of_len(rng, l))));
+                sink.line("clone 1 0");
+            }
+            _ => {
+                sink.line(&format!("with_capacity 0 {}", l + rng.below(30)));
+                sink.line(&format!("push_str 0 {}", h(&gn::text_of_len(rng, l))));
+            }
+        }
+        match rng.below(4) {
+            0 => sink.line(&format!("reserve 0 {add}")),
+            1 => sink.line(&format!("push_str 0 {}", h(&gn::text_of_len(rng, add)))),
+            2 => {
+                let t = sink.ex.observe(0).map(|o| o.text).unwrap_or_default();
+                sink.line(&format!("insert_str 0 {} {}", gn::index(rng, &t), h(&gn::text_of_len(rng, add))))
+            }
+            _ => sink.line(&format!("push 0 {}", h(gn::rand_char(rng)))),
+        }
+        sink.line("push 0 61");
+    }
+}
+
+// ------------------------------------------------------------------------------------------ C13
+fn shrink(rng: &mut Rng, n: usize, sink: &mut Sink) {
+    let ratios: [(usize, usize); 8] = [(20, 20), (100, 110), (100, 150), (100, 200), (30, 300), (5, 40), (16, 40), (17, 18)];
+    for &(len, cap) in &ratios {
+        let ms = [0usize, len.saturating_sub(1), len, len + 1, cap - 1, cap, cap + 1, 16, 17, usize::MAX, (cap + len) / 2];
+        for &m in &ms {
+            for share in 0..4 {
+                for tr in ["", "try_"] {
+                    if n < 2 && (m + share) % 2 == 1 && tr == "try_" {
+                        continue;
+                    }
+                    sink.line("reset");
+                    sink.line(&format!("with_capacity 0 {cap}"));
+                    sink.line(&format!("push_str 0 {}", h(&gn::text_of_len(rng, len))));
+                    match share {
+                        1 => sink.line("clone 1 0"),
+                        2 => {
+                            sink.line("clone 1 0");
+                            sink.line("truncate 1 2");
+                        }
+                        3 => {
+                            sink.line("clone 1 0");
+                            sink.line("truncate 0 3");
+                        }
+                        _ => {}
+                    }
+                    if m == 0 && tr.is_empty() {
+                        sink.line("shrink_to_fit 0");
+                    } else {
+                        sink.line(&format!("{tr}shrink_to 0 {m}"));
+                    }
+                    sink.line("push 0 61");
+                    if share > 0 {
+                        sink.line("shrink_to_fit 1");
+                    }
+                }
+            }
+        }
+    }
+    for sid in 0..STATIC_TEXTS.len() {
+        sink.line("reset");
+        sink.line(&format!("from_static 0 {sid}"));
+        sink.line("shrink_to_fit 0");
+        sink.line(&format!("shrink_to 0 {}", rng.below(40)));
+    }
+}
+
+// ------------------------------------------------------------------------------------------ C18
+fn callbacks(rng: &mut Rng, n: usize, sink: &mut Sink) {
+    let lens = if n >= 3 { vec![0usize, 1, 2, 5, 15, 16, 17, 20, 40] } else { vec![0usize, 1, 5, 16, 17, 24] };
+    for &l in &lens {
+        let text = gn::text_of_len(rng, l);
+        let nchars = text.chars().count();
+        let mut sts = states(rng, &text);
+        sts.push(("static", vec![format!("from_static 0 {}", l % STATIC_TEXTS.len()), "clone 1 0".into()]));
+        for (_s, setup) in &sts {
+            for k in 0..=nchars + 1 {
+                // retain: the k-th invocation panics
+                let mut p: String = (0..nchars.max(k) + 1).map(|i| if i % 3 == 1 { 'F' } else { 'T' }).collect();
+                p.replace_range(k..k + 1, "P");
+                sink.line("reset");
+                sink.lines(setup);
+                sink.line(&format!("{} 0 {p}", if k % 2 == 0 { "retain" } else { "try_retain" }));
+                sink.line("push 0 61");
+                // extend / collect / display: the k-th item panics
+                if k <= 12 {
+                    let mut items: Vec<String> = (0..k).map(|_| h(gn::rand_char(rng))).collect();
+                    items.push("P".into());
+                    items.push(h("z"));
+                    let it = items.join(",");
+                    sink.line("reset");
+                    sink.lines(setup);
+                    sink.line(&format!("extend_chars 0 {} {it}", rng.below(30)));
+                    sink.line("push 0 61");
+                    sink.line("reset");
+                    sink.lines(setup);
+                    sink.line(&format!("extend_strs 0 {it}"));
+                    sink.line(&format!("collect_chars 4 {} {it}", rng.below(30)));
+                    sink.line(&format!("collect_strs 5 {it}"));
+                    sink.line(&format!("display 3 {it}"));
+                    sink.line("push 0 61");
+                }
+            }
+        }
+    }
+    // long accumulations that reach the heap before the panic
+    for k in [17usize, 18, 30, 60] {
+        let mut items: Vec<String> = (0..k).map(|_| h(gn::rand_char(rng))).collect();
+        items.push("P".into());
+        let it = items.join(",");
+        sink.line("reset");
+        sink.line(&format!("collect_chars 0 0 {it}"));
+        sink.line(&format!("collect_chars 1 {k} {it}"));
+        sink.line(&format!("collect_strs 2 {it}"));
+        sink.line(&format!("display 3 {it}"));
+    }
+}
+
+// ------------------------------------------------------------------------------------------ C14
+const INT_TYPES: [(&str, i128, i128); 12] = [
+    ("u8", 0, u8::MAX as i128), ("i8", i8::MIN as i128, i8::MAX as i128),
+    ("u16", 0, u16::MAX as i128), ("i16", i16::MIN as i128, i16::MAX as i128),
+    ("u32", 0, u32::MAX as i128), ("i32", i32::MIN as i128, i32::MAX as i128),
+    ("u64", 0, u64::MAX as i128), ("i64", i64::MIN as i128, i64::MAX as i128),
+    ("usize", 0, usize::MAX as i128), ("isize", isize::MIN as i128, isize::MAX as i128),
+    ("u128", 0, i128::MAX), ("i128", i128::MIN, i128::MAX),
+];
+
+fn ints(rng: &mut Rng, n: usize, sink: &mut Sink) {
+    let mut d = 0usize;
+    let mut emit = |sink: &mut Sink, ty: &str, v: i128, nz: bool| {
+        if d % 6 == 0 {
+            sink.line("reset");
+        }
+        let ty = if nz && v != 0 { format!("nz_{ty}") } else { ty.to_string() };
+        sink.line(&format!("int {} {ty} {v}", d % 6));
+        d += 1;
+    };
+    for &(ty, lo, hi) in &INT_TYPES {
+        let mut vals: Vec<i128> = vec![lo, lo + 1, hi, hi - 1, 0, 1, -1];
+        let mut p: i128 = 1;
+        for _ in 0..39 {
+            for dd in -3..=3 {
+                vals.push(p + dd);
+                vals.push(-p + dd);
+            }
+            if p > i128::MAX / 10 {
+                break;
+            }
+            p *= 10;
+        }
+        for k in 0..127 {
+            let q: i128 = 1i128 << k;
+            for dd in -3..=3 {
+                vals.push(q + dd);
+                vals.push(-q + dd);
+            }
+        }
+        if ty == "u8" || ty == "i8" || ty == "u16" || ty == "i16" {
+            // exhaustive for the 8- and 16-bit types
+            vals = (lo..=hi).collect();
+        }
+        for v in vals {
+            if v >= lo && v <= hi {
+                emit(sink, ty, v, false);
+                if v % 7 == 0 || v.abs() < 300 {
+                    emit(sink, ty, v, true);
+                }
+            }
+        }
+        // random, stratified by digit count
+        let per = (n / INT_TYPES.len()).max(100);
+        for i in 0..per {
+            let digits = 1 + (i % 39) as u32;
+            let mag: i128 = if digits >= 39 { i128::MAX } else { 10i128.pow(digits) };
+            let r = ((rng.next() as u128) << 64 | rng.next() as u128) as i128;
+            let mut v = (r % mag).abs();
+            if lo < 0 && rng.chance(50) {
+                v = -v;
+            }
+            if v >= lo && v <= hi {
+                emit(sink, ty, v, i % 5 == 0);
+            }
+        }
+    }
+}
+
+fn ints_exhaustive32(sink: &mut Sink) {
+    // all 2^32 values of u32 and i32 against to_string(), 16 threads
+    let bad = std::sync::Mutex::new(Vec::<String>::new());
+    std::thread::scope(|sc| {
+        for t in 0..16u64 {
+            let bad = &bad;
+            sc.spawn(move || {
+                let lo = t << 28;
+                let hi = (t + 1) << 28;
+                let mut buf = String::new();
+                for x in lo..hi {
+                    let u = x as u32;
+                    let i = u as i32;
+                    use std::fmt::Write;
+                    buf.clear();
+                    write!(buf, "{u}").unwrap();
+                    if u.to_lean_string().as_str() != buf {
+                        bad.lock().unwrap().push(format!("u32 {u}: {:?}", u.to_lean_string().as_str()));
+                        return;
+                    }
+                    buf.clear();
+                    write!(buf, "{i}").unwrap();
+                    if i.to_lean_string().as_str() != buf {
+                        bad.lock().unwrap().push(format!("i32 {i}: {:?}", i.to_lean_string().as_str()));
+                        return;
+                    }
+                }
+            });
+        }
+    });
+    for b in bad.into_inner().unwrap() {
+        sink.fail(&["C14"], format!("to_lean_string differs from to_string: {b}"));
+    }
+    sink.oracle.evaluations += 2 * (1u64 << 32);
+    sink.oracle.distinct_nontrivial += 2 * (1u64 << 32);
+    sink.oracle.exhaustive = true;
+    sink.oracle.samples.push("every u32 and every i32 value against to_string()".into());
+}
+
+// ------------------------------------------------------------------------------------------ C15
+fn display(rng: &mut Rng, n: usize, sink: &mut Sink) {
+    for i in 0..n {
+        if i % 5 == 0 {
+            sink.line("reset");
+        }
+        let d = i % 5;
+        match i % 7 {
+            0 => sink.line(&format!("from_bool {d} {}", i / 7 % 2)),
+            1 => sink.line(&format!("from_char {d} {}", h(gn::rand_char(rng)))),
+            2 => sink.line(&format!("from_string {d} {}", h(&gn::rand_text(rng)))),
+            _ => sink.line(&format!("display {d} {}", gn::items_strs(rng, i % 7 == 3, true))),
+        }
+        if rng.chance(10) {
+            sink.line("fault 0");
+        }
+    }
+}
+
+fn chars(sink: &mut Sink) {
+    // every char against to_string()
+    let mut n = 0u64;
+    for u in 0..=0x10FFFFu32 {
+        if let Some(c) = char::from_u32(u) {
+            n += 1;
+            let s = c.to_lean_string();
+            let mut b = [0u8; 4];
+            if s.as_bytes() != c.encode_utf8(&mut b).as_bytes() || s.is_heap_allocated() {
+                sink.fail(&["C15", "C09"], format!("char U+{u:04X}: to_lean_string gives {}", hex(s.as_bytes())));
+                break;
+            }
+        }
+    }
+    for b in [true, false] {
+        n += 1;
+        if b.to_lean_string().as_str() != b.to_string() {
+            sink.fail(&["C15"], format!("bool {b}"));
+        }
+    }
+    sink.oracle.evaluations += n;
+    sink.oracle.distinct_nontrivial += n;
+    sink.oracle.exhaustive = true;
+    sink.oracle.samples.push("every Unicode scalar value and both bools against to_string()".into());
+}
+
+fn float_patterns_f64(rng: &mut Rng, n: usize) -> Vec<u64> {
+    let mut v = vec![0u64, 1 << 63, f64::INFINITY.to_bits(), f64::NEG_INFINITY.to_bits(), f64::NAN.to_bits(), 1, f64::MAX.to_bits(), f64::MIN_POSITIVE.to_bits(), f64::EPSILON.to_bits()];
+    for e in 0..2048u64 {
+        for m in [0u64, 1, 2, (1 << 52) - 1, (1 << 52) - 2, 1 << 51, 0x5555555555555 & ((1 << 52) - 1)] {
+            v.push(e << 52 | m);
+            v.push(1 << 63 | e << 52 | m);
+        }
+    }
+    for _ in 0..n {
+        v.push(rng.next());
+    }
+    for i in 0..1000 {
+        v.push((i as f64 / 10.0).to_bits());
+        v.push((10f64.powi(i % 600 - 300)).to_bits());
+    }
+    v
+}
+
+fn floats(rng: &mut Rng, n: usize, sink: &mut Sink) {
+    let mut evals = 0u64;
+    for bits in float_patterns_f64(rng, n / 2) {
+        evals += 1;
+        if let Err(e) = crate::nums::float_roundtrip_f64(bits) {
+            sink.fail(&["C15"], e);
+            break;
+        }
+    }
+    let mut v32 = vec![0u32, 1 << 31, f32::INFINITY.to_bits(), f32::NEG_INFINITY.to_bits(), f32::NAN.to_bits(), 1, f32::MAX.to_bits()];
+    for e in 0..256u32 {
+        for m in [0u32, 1, 2, (1 << 23) - 1, 1 << 22, 0x2AAAAA] {
+            v32.push(e << 23 | m);
+            v32.push(1 << 31 | e << 23 | m);
+        }
+    }
+    for _ in 0..n / 2 {
+        v32.push(rng.next() as u32);
+    }
+    for bits in v32 {
+        evals += 1;
+        if let Err(e) = crate::nums::float_roundtrip_f32(bits) {
+            sink.fail(&["C15"], e);
+            break;
+        }
+    }
+    sink.oracle.evaluations += evals;
+    sink.oracle.distinct_nontrivial += evals;
+    sink.oracle.samples.push("f64: all exponents x mantissa edges, both signs, NaN/inf/zeros, powers of ten, random bit patterns; text.parse() bit-identical".into());
+}
+
+fn floats_f32_all(sink: &mut Sink) {
+    let bad = std::sync::Mutex::new(Vec::<String>::new());
+    std::thread::scope(|sc| {
+        for t in 0..16u64 {
+            let bad = &bad;
+            sc.spawn(move || {
+                for x in (t << 28)..((t + 1) << 28) {
+                    if let Err(e) = crate::nums::float_roundtrip_f32(x as u32) {
+                        bad.lock().unwrap().push(e);
+                        return;
+                    }
+                }
+            });
+        }
+    });
+    for b in bad.into_inner().unwrap() {
+        sink.fail(&["C15"], b);
+    }
+    sink.oracle.evaluations += 1u64 << 32;
+    sink.oracle.distinct_nontrivial += 1u64 << 32;
+    sink.oracle.exhaustive = true;
+    sink.oracle.samples.push("all 2^32 f32 bit patterns round-trip through to_lean_string().parse()".into());
+}
+
+// ------------------------------------------------------------------------------------------ C16
+const BYTE_ALPHABET: [u8; 17] = [0x41, 0x7F, 0x80, 0x8F, 0x90, 0x9F, 0xA0, 0xBF, 0xC0, 0xC2, 0xDF, 0xE0, 0xE1, 0xED, 0xF0, 0xF4, 0xFF];
+const U16_ALPHABET: [u16; 8] = [0x61, 0x07FF, 0xFFFF, 0xD800, 0xDBFF, 0xDC00, 0xDFFF, 0xE000];
+
+fn decode(rng: &mut Rng, n: usize, sink: &mut Sink, scripted: bool) {
+    // all byte strings up to length n over the class alphabet (n <= 4 scripted; more: oracle only)
+    let maxlen = n.min(7);
+    let mut cnt = 0u64;
+    let mut d = 0usize;
+    let mut idx = vec![0usize; 0];
+    loop {
+        let bytes: Vec<u8> = idx.iter().map(|&i| BYTE_ALPHABET[i]).collect();
+        cnt += 1;
+        if scripted {
+            if d % 6 == 0 {
+                sink.line("reset");
+            }
+            sink.line(&format!("from_utf8 {} {}", d % 6, hex(&bytes)));
+            sink.line(&format!("from_utf8_lossy {} {}", (d + 1) % 6, hex(&bytes)));
+            d += 2;
+        } else {
+            let a = LeanString::from_utf8(&bytes).ok().map(|s| s.as_bytes().to_vec());
+            let b = String::from_utf8(bytes.clone()).ok().map(|s| s.into_bytes());
+            let la = LeanString::from_utf8_lossy(&bytes);
+            let lb = String::from_utf8_lossy(&bytes);
+            if a != b || la.as_bytes() != lb.as_bytes() {
+                sink.fail(&["C16"], format!("utf8 input {}: from_utf8/lossy differ from String's", hex(&bytes)));
+                break;
+            }
+        }
+        // next
+        let mut k = idx.len();
+        loop {
+            if k == 0 {
+                idx = vec![0; idx.len() + 1];
+                break;
+            }
+            k -= 1;
+            if idx[k] + 1 < BYTE_ALPHABET.len() {
+                idx[k] += 1;
+                for j in k + 1..idx.len() {
+                    idx[j] = 0;
+                }
+                break;
+            }
+        }
+        if idx.len() > maxlen {
+            break;
+        }
+    }
+    // u16 strings
+    let max16 = if scripted { n.min(4) } else { n.min(6) };
+    let mut idx = vec![0usize; 0];
+    loop {
+        let units: Vec<u16> = idx.iter().map(|&i| U16_ALPHABET[i]).collect();
+        cnt += 1;
+        if scripted {
+            let hx: String = if units.is_empty() { "-".into() } else { units.iter().map(|u| format!("{u:04x}")).collect() };
+            if d % 6 == 0 {
+                sink.line("reset");
+            }
+            sink.line(&format!("from_utf16 {} {hx}", d % 6));
+            sink.line(&format!("from_utf16_lossy {} {hx}", (d + 1) % 6));
+            d += 2;
+        } else {
+            let a = LeanString::from_utf16(&units).ok().map(|s| s.as_bytes().to_vec());
+            let b = String::from_utf16(&units).ok().map(|s| s.into_bytes());
+            let la = LeanString::from_utf16_lossy(&units);
+            let lb = String::from_utf16_lossy(&units);
+            if a != b || la.as_bytes() != lb.as_bytes() {
+                sink.fail(&["C16"], format!("utf16 input {units:04x?}: from_utf16/lossy differ from String's"));
+                break;
+            }
+        }
+        let mut k = idx.len();
+        loop {
+            if k == 0 {
+                idx = vec![0; idx.len() + 1];
+                break;
+            }
+            k -= 1;
+            if idx[k] + 1 < U16_ALPHABET.len() {
+                idx[k] += 1;
+                for j in k + 1..idx.len() {
+                    idx[j] = 0;
+                }
+                break;
+            }
+        }
+        if idx.len() > max16 {
+            break;
+        }
+    }
+    // long near-valid inputs crossing the inline limit
+    for _ in 0..(if scripted { 400 } else { 20000 }) {
+        let mut b = tl(rng, 10, 30).into_bytes();
+        for _ in 0..rng.below(4) {
+            let at = rng.below(b.len());
+            match rng.below(3) {
+                0 => b[at] = *rng.pick(&BYTE_ALPHABET),
+                1 => {
+                    b.remove(at);
+                }
+                _ => b.insert(at, *rng.pick(&BYTE_ALPHABET)),
+            }
+        }
+        cnt += 1;
+        if scripted {
+            sink.line("reset");
+            d = 0;
+            sink.line(&format!("from_utf8 {} {}", d % 6, hex(&b)));
+            sink.line(&format!("from_utf8_lossy {} {}", (d + 1) % 6, hex(&b)));
+            let units: Vec<u16> = String::from_utf8_lossy(&b).encode_utf16().map(|u| if rng.chance(5) { *rng.pick(&U16_ALPHABET) } else { u }).collect();
+            let hx: String = if units.is_empty() { "-".into() } else { units.iter().map(|u| format!("{u:04x}")).collect() };
+            sink.line(&format!("from_utf16 {} {hx}", (d + 2) % 6));
+            sink.line(&format!("from_utf16_lossy {} {hx}", (d + 3) % 6));
+            d += 4;
+        } else {
+            let la = LeanString::from_utf8_lossy(&b);
+            let lb = String::from_utf8_lossy(&b);
+            if la.as_bytes() != lb.as_bytes() || LeanString::from_utf8(&b).is_ok() != String::from_utf8(b.clone()).is_ok() {
+                sink.fail(&["C16"], format!("utf8 input {}: differs from String's", hex(&b)));
+            }
+        }
+    }
+    if !scripted {
+        sink.oracle.evaluations += cnt;
+        sink.oracle.distinct_nontrivial += cnt;
+        sink.oracle.exhaustive = true;
+        sink.oracle.samples.push(format!("all byte strings of length <= {maxlen} over the 17-letter UTF-8 class alphabet and all u16 strings of length <= {max16} over the 8-letter surrogate alphabet, against String"));
+    }
 }
